@@ -38,6 +38,51 @@ while slope_min < slope_max:
 """
 
 
+def _b2t(run, M, f):
+    """"within tol of the request or an error" also means: one of the two happens.  The slope is found by bisection on floats; when the bracket has
+    shrunk to two adjacent floats the midpoint (lo + hi) / 2 IS one of them, neither bound moves any more and `while lo < hi` spins forever -- for
+    every request no slope satisfies (an unreachable tol).  The loop must leave (break / raise / return) when the midpoint stops being interior,
+    or bound its iterations."""
+    run.rule("B2t", "the bisection over the slope terminates for unsatisfiable requests: the loop exits when the midpoint equals an end of the bracket (or counts its iterations), "
+                    "so that the failure is reported by the ValueError after the loop")
+    loops = [n for n in ast.walk(f.node) if isinstance(n, ast.While)]
+    n_bis = 0
+    for w in loops:
+        t = w.test
+        conj = t.values if isinstance(t, ast.BoolOp) and isinstance(t.op, ast.And) else [t]
+        pair = None
+        for c in conj:
+            if isinstance(c, ast.Compare) and len(c.ops) == 1 and isinstance(c.ops[0], (ast.Lt, ast.Gt, ast.LtE, ast.GtE, ast.NotEq)) \
+                    and isinstance(c.left, ast.Name) and isinstance(c.comparators[0], ast.Name):
+                pair = (c.left.id, c.comparators[0].id)
+        if pair is None:
+            continue
+        mids = set()
+        for n in ast.walk(w):
+            if isinstance(n, ast.Assign) and len(n.targets) == 1 and isinstance(n.targets[0], ast.Name):
+                names = {x.id for x in ast.walk(n.value) if isinstance(x, ast.Name)}
+                if set(pair) <= names:
+                    mids.add(n.targets[0].id)
+        moved = any(isinstance(n, ast.Assign) and isinstance(n.targets[0], ast.Name) and n.targets[0].id in pair and isinstance(n.value, ast.Name) and n.value.id in mids
+                    for n in ast.walk(w))
+        if not mids or not moved:
+            continue
+        n_bis += 1
+        bounded = len(conj) > 1 and any(not (isinstance(c, ast.Compare) and {x.id for x in ast.walk(c) if isinstance(x, ast.Name)} <= set(pair)) for c in conj)
+        guarded = False
+        for n in ast.walk(w):
+            if isinstance(n, ast.If) and any(isinstance(x, (ast.Break, ast.Raise, ast.Return)) for b in n.body for x in ast.walk(b)):
+                names = {x.id for x in ast.walk(n.test) if isinstance(x, ast.Name)}
+                cmps = [c for c in ast.walk(n.test) if isinstance(c, ast.Compare) and any(isinstance(o, (ast.Eq, ast.In, ast.LtE, ast.GtE)) for o in c.ops)]
+                if (names & mids) and (names & set(pair)) and cmps:
+                    guarded = True
+        run.check(guarded or bounded, "B2t", "poisson bisection over (%s, %s)" % pair, f.loc(w), "exits when the midpoint is no longer interior (or iterations are bounded)",
+                  "poisson bisects `%s` between `%s` and `%s` in a `while %s` loop without leaving it when the midpoint equals an end of the bracket: once the two bounds are "
+                  "adjacent floats the midpoint is one of them, no bound moves, and for a request no slope satisfies (e.g. poisson((32, 32), 4, tol=0.001, seed=0)) the call "
+                  "neither returns a mask within tol nor raises -- it never returns" % (sorted(mids)[0], pair[0], pair[1], unparse(w.test)), stmt="B2t")
+    run.floor("B2t", 1, n_bis, "bisection loops in poisson")
+
+
 def check(run, M, tier):
     run.rule("B1", "binary-valued abstract domain: the value returned by poisson (and by _poisson) is Bin on every path")
     run.rule("B2", "every returning path of poisson carries |size/sum(mask) - accel| < tol for the mask it returns; other paths raise")
@@ -74,6 +119,7 @@ def check(run, M, tier):
     M2._collect(mod, tree, mod.name, None, None)
     run.control("B1", "zeros then += 1", True, any(t != BIN for _, t in BinDomain(M2, M2.funcs["sigpy._ctl_bin.ctl"], {}).run()))
 
+    _b2t(run, M, f)
     # ---- B2 / B3 via value numbering with one symbolic loop iteration
     events_of = {}
 
@@ -95,6 +141,7 @@ def check(run, M, tier):
     rets = [o for o in outs if o.status == "return"]
     run.floor("B2", 2, len(rets), "returning paths of poisson")
     run.count("paths", len(outs))
+    local_names = {x.id for x in ast.walk(f.node) if isinstance(x, ast.Name) and isinstance(x.ctx, ast.Store)} - set(f.params)
     for o in rets:
         ret = o.ret
         # the mask that is returned, stripped of reshape/astype
@@ -105,6 +152,11 @@ def check(run, M, tier):
                 base = T.dec(a[2][0])
             else:
                 break
+        ba_ = base.single_atom() if isinstance(base, T.Poly) else None
+        if ba_ is not None and ba_[0] == "sym" and ba_[1] in local_names:
+            # the "mask" returned on this path is a local that no statement of the path has bound (the loop was left before its first assignment):
+            # the path ends in UnboundLocalError, it does not return
+            continue
         size = VN().ev(ast.parse("img_shape[-1] * img_shape[-2]", mode="eval").body, State())
         aa = T.div(size, T.app("sum", base)) if isinstance(base, T.Poly) else None
         aa2 = None
